@@ -15,6 +15,7 @@ as_frequency_spectrum(); integrate_spectral_data and the two numba quadratures a
 sums.
 """
 import math
+import re
 import traceback
 
 import numpy as np
@@ -305,6 +306,7 @@ class Reporter:
     def __call__(self, check, what, label=None, **detail):
         k = self.n.get(check, 0)
         self.n[check] = k + 1
+        what = re.sub(r"np\.(?:float64|int64|bool_?)\(([^()]*)\)", r"\1", what)
         if k < self.cap:
             key = dict(self.base, check=check)
             if label is not None:
